@@ -7,6 +7,7 @@
 //!   material-colors <json>       MaterialColors encode / decode / get_color on a concrete map or blob
 //!   tags <json>                  Tags encode / decode on concrete names or a blob
 //!   binary-encode <json file>    Serializer (compression off, custom database) on a DOM built from bit patterns, then read back
+//!   binary-compress-scan         Folders named a^k written with LZ4 / Zstandard and read back (replay of framing findings)
 //!   binary-write-sink <room>     rbx_binary::to_writer of a one-Folder DOM into a sink with room for <room> bytes
 use std::io::Read;
 
@@ -14,6 +15,14 @@ use rbx_types::*;
 use serde_json::{json, Value};
 
 fn unhex(s: &str) -> Vec<u8> {
+    // "@path": the hex text is in that file (inputs too long for an argument)
+    let owned;
+    let s = if let Some(p) = s.strip_prefix('@') {
+        owned = std::fs::read_to_string(p).expect("hex file");
+        owned.trim()
+    } else {
+        s
+    };
     (0..s.len() / 2).map(|i| u8::from_str_radix(&s[2 * i..2 * i + 2], 16).unwrap()).collect()
 }
 
@@ -109,6 +118,7 @@ fn build_fields(kind: &str, d: &Value) -> Variant {
         "Vector3" => Variant::Vector3(Vector3::new(fl("x"), fl("y"), fl("z"))),
         "Color3" => Variant::Color3(Color3::new(fl("r"), fl("g"), fl("b"))),
         "Color3uint8" => Variant::Color3uint8(Color3uint8::new(u("r") as u8, u("g") as u8, u("b") as u8)),
+        "SharedString" => Variant::SharedString(SharedString::new(bytes(&d["bytes"]))),
         other => panic!("replayer: unsupported field-dict kind {}", other),
     }
 }
@@ -405,6 +415,48 @@ pub fn main(args: &[String]) {
                     Err(e) => println!("{}", json!({"file": hex(&out), "read_err": e.to_string()})),
                 },
             }
+        }
+        "binary-bigstring" => {
+            // a StringValue-like instance with a string of <n> equal bytes, written with each compression mode, read back
+            let n: usize = args[1].parse().unwrap();
+            let mut res = Vec::new();
+            for (mode, cname) in [(rbx_binary::CompressionType::Lz4, "Lz4"), (rbx_binary::CompressionType::Zstd, "Zstd"), (rbx_binary::CompressionType::None, "None")] {
+                let dom = rbx_dom_weak::WeakDom::new(
+                    rbx_dom_weak::InstanceBuilder::new("UnknownClassX").with_property("Payload", Variant::BinaryString(BinaryString::from(vec![0x41u8; n]))),
+                );
+                let mut out = Vec::new();
+                rbx_binary::Serializer::new().compression_type(mode).serialize(&mut out, &dom, &[dom.root_ref()]).unwrap();
+                match rbx_binary::from_reader(&out[..]) {
+                    Ok(back) => {
+                        let inst = back.get_by_ref(back.root().children()[0]).unwrap();
+                        let same = matches!(inst.properties.get(&"Payload".into()), Some(Variant::BinaryString(b)) if AsRef::<[u8]>::as_ref(b).len() == n);
+                        res.push(json!([cname, out.len(), if same { "ok" } else { "mismatch" }]));
+                    }
+                    Err(e) => res.push(json!([cname, out.len(), {"err": e.to_string()}])),
+                }
+            }
+            println!("{}", json!(res));
+        }
+        "binary-compress-scan" => {
+            // compressed framing replay: Folders named "a"*k (k = 1..=256) written with each compression mode and read back
+            let mut bad = Vec::new();
+            for (mode, cname) in [(rbx_binary::CompressionType::Lz4, "Lz4"), (rbx_binary::CompressionType::Zstd, "Zstd")] {
+                for k in 1..=256usize {
+                    let name = "a".repeat(k);
+                    let dom = rbx_dom_weak::WeakDom::new(rbx_dom_weak::InstanceBuilder::new("Folder").with_name(name.clone()));
+                    let mut out = Vec::new();
+                    let w = rbx_binary::Serializer::new().compression_type(mode).serialize(&mut out, &dom, &[dom.root_ref()]);
+                    let ok = w.is_ok()
+                        && match rbx_binary::from_reader(&out[..]) {
+                            Ok(back) => back.root().children().len() == 1 && back.get_by_ref(back.root().children()[0]).unwrap().name == name,
+                            Err(_) => false,
+                        };
+                    if !ok {
+                        bad.push(json!([cname, k]));
+                    }
+                }
+            }
+            println!("{}", json!({"scanned": 512, "bad": bad}));
         }
         "binary-write-sink" => {
             // rbx_binary::to_writer of a one-Folder DOM into a sink with room for <room> bytes (short write up to the limit, then an error)
